@@ -285,6 +285,33 @@ func arrTmpls() []tmpl {
 		a.MoveFront(a.Get(n - 1).CreatedAt())
 		return true
 	}})
+	// MoveBefore(next, x): x ends up immediately before next
+	out = append(out, tmpl{"moveLbefore0", func(m *model, r *yjson.Object, v int) bool {
+		n := len(m.arr)
+		if n < 2 {
+			return false
+		}
+		e := m.arr[n-1]
+		m.arr = append([]string{e}, m.arr[:n-1]...)
+		m.arrMoved = append([]bool{true}, m.arrMoved[:n-1]...)
+		a := r.GetArray("a")
+		a.MoveBefore(a.Get(0).CreatedAt(), a.Get(n-1).CreatedAt())
+		return true
+	}})
+	out = append(out, tmpl{"move0beforeL", func(m *model, r *yjson.Object, v int) bool {
+		n := len(m.arr)
+		if n < 3 {
+			return false
+		}
+		e := m.arr[0]
+		rest := append([]string{}, m.arr[1:n-1]...)
+		restM := append([]bool{}, m.arrMoved[1:n-1]...)
+		m.arr = append(append(rest, e), m.arr[n-1])
+		m.arrMoved = append(append(restM, true), m.arrMoved[n-1])
+		a := r.GetArray("a")
+		a.MoveBefore(a.Get(n-1).CreatedAt(), a.Get(0).CreatedAt())
+		return true
+	}})
 	out = append(out, tmpl{"moveLast0", func(m *model, r *yjson.Object, v int) bool {
 		n := len(m.arr)
 		if n < 2 {
